@@ -349,6 +349,7 @@ func checkC10(p *core.Program, r *core.Report) {
 	r.Rule(R7, "SetTrusted(true) only within RegisterRemoteSKI or under state == SmeHelloStateOk of the state-update callback; the trust predicates return the stored flags (rule shared with C01.R4): no other handshake state re-trusts a SKI the user cancelled or unregistered")
 	importRules(p, r, "C02", map[string]string{"C02.R1 identity-provenance": R6, "C02.R2 refusal-order": R6, "C02.R4 ski-bound-to-key": R6}, nil)
 	importRules(p, r, "C01", map[string]string{"C01.R4 hub-trust-writers": R7}, nil)
+	importRules(p, r, "C13", map[string]string{"C13.R8 local-close-always-closes": R2, "C13.R1 close-routine-releases": R2}, nil)
 	// R5
 	n := checkSKINormalised(p, r, R5, map[string]bool{"RegisterRemoteSKI": true, "UnregisterRemoteSKI": true, "DisconnectSKI": true, "CancelPairingWithSKI": true})
 	if n < 4 {
